@@ -4,7 +4,7 @@ import re
 
 from .. import workload
 
-POLICIES = ["random", "serial", "rr", "pct", "spread", "pile"]
+POLICIES = ["random", "serial", "rr", "pct", "spread", "pile", "placed", "placed", "placed"]
 THREADS = [1, 2, 3, 4, 8, 16]
 BUFS = [8192, 8192, 64, 256, 1024]
 
@@ -90,8 +90,8 @@ def structured_cells(hashseeds=(0, 1, 2, 3, 4, 5, 6, 7), threads=(1, 2, 3, 16)):
     for w in threads[1:]:
         for pol in ("serial", "spread", "random"):
             cells.append(dict(g, threads=w, sched={"policy": pol, "seed": w}, note="threads"))
-    for sd in (11, 12, 13):
-        cells.append(dict(g, threads=2, sched={"policy": "random", "seed": sd}, note="threads"))
+    for sd in (11, 12, 13, 14, 15, 16):
+        cells.append(dict(g, threads=2 + sd % 2, sched={"policy": "placed", "seed": sd}, note="threads"))
     cells.append(dict(g, threads=2, sched={"policy": "rr", "seed": 1}, note="threads"))
     cells.append(dict(g, high_memory=True, note="high_memory"))
     cells.append(dict(g, high_memory=True, threads=2, sched={"policy": "spread", "seed": 2}, note="high_memory"))
